@@ -67,6 +67,86 @@ fn yaml_texts(path: &str) -> Result<Value, String> {
     Ok(Value::Array(out))
 }
 
+/// every entry of a Unicode rule file (yaml-rust, the library's own parser crate): the key and whether its replacement
+/// speaks under every condition -- some item is a text / xpath / spell item, or a test all of whose branches exist and speak
+fn unicode_entries(path: &str) -> Result<Value, String> {
+    use yaml_rust::{Yaml, YamlLoader};
+    let content = std::fs::read_to_string(path).map_err(|e| format!("HARNESS: can't read {}: {}", path, e))?;
+    let docs = YamlLoader::load_from_str(&content).map_err(|e| format!("HARNESS: yaml error in {}: {}", path, e))?;
+    fn list_speaks(y: &Yaml) -> bool {
+        match y {
+            Yaml::Array(a) => a.iter().any(item_speaks),
+            Yaml::Hash(_) => item_speaks(y),
+            _ => false,
+        }
+    }
+    fn clause_speaks(h: &yaml_rust::yaml::Hash) -> (bool, bool) {
+        // (every branch present in this clause speaks, the clause has a final else)
+        let mut all = true;
+        let mut has_else = false;
+        for (k, v) in h {
+            let key = k.as_str().unwrap_or("").to_lowercase();
+            match key.as_str() {
+                "then" | "else" => { all &= list_speaks(v); if key == "else" { has_else = true; } }
+                "then_test" | "else_test" => { all &= test_speaks(v); if key == "else_test" { has_else = true; } }
+                _ => (),
+            }
+        }
+        (all, has_else)
+    }
+    fn test_speaks(y: &Yaml) -> bool {
+        match y {
+            Yaml::Hash(h) => { let (all, e) = clause_speaks(h); all && e }
+            Yaml::Array(a) => {
+                let mut all = true;
+                let mut has_else = false;
+                for c in a {
+                    if let Yaml::Hash(h) = c { let (x, e) = clause_speaks(h); all &= x; has_else |= e; }
+                }
+                all && has_else
+            }
+            _ => false,
+        }
+    }
+    fn item_speaks(y: &Yaml) -> bool {
+        if let Yaml::Hash(h) = y {
+            for (k, v) in h {
+                let key = k.as_str().unwrap_or("").to_lowercase();
+                match key.as_str() {
+                    "t" | "ct" | "ot" => if v.as_str().map(|s| !s.trim().is_empty()).unwrap_or(false) { return true; },
+                    "x" | "spell" | "pronounce" | "translate" => return true,
+                    "test" => if test_speaks(v) { return true; },
+                    "pitch" | "rate" | "volume" | "audio" | "gender" | "voice" | "with" =>
+                        if let Yaml::Hash(inner) = v {
+                            for (k2, v2) in inner {
+                                if k2.as_str() == Some("replace") && list_speaks(v2) { return true; }
+                            }
+                        },
+                    _ => (),
+                }
+            }
+        }
+        false
+    }
+    let mut out: Vec<Value> = vec![];
+    for d in &docs {
+        if let Yaml::Array(entries) = d {
+            for e in entries {
+                if let Yaml::Hash(h) = e {
+                    for (k, v) in h {
+                        if let Some(key) = k.as_str() {
+                            if key != "include" {
+                                out.push(json!([key, list_speaks(v)]));
+                            }
+                        }
+                    }
+                }
+            }
+        }
+    }
+    Ok(Value::Array(out))
+}
+
 thread_local! {
     static LAST_MATHML: std::cell::RefCell<String> = std::cell::RefCell::new(String::new());
 }
@@ -116,6 +196,7 @@ pub fn dispatch(op: &[Value]) -> Result<Value, String> {
             None => Err("HARNESS: no leaf".to_string()),
         },
         "h_yaml_texts" => yaml_texts(&s(op, 1)),
+        "h_unicode_entries" => unicode_entries(&s(op, 1)),
         // file-system steps of a fault history (C14): they act on a private copy of Rules/ only
         "h_write" => std::fs::write(s(op, 1), s(op, 2)).map(|_| Value::Null).map_err(|e| format!("HARNESS: {}", e)),
         "h_remove" => std::fs::remove_file(s(op, 1)).map(|_| Value::Null).map_err(|e| format!("HARNESS: {}", e)),
